@@ -2,6 +2,7 @@ package keeper
 
 import (
 	"fmt"
+	"math"
 	"sort"
 
 	errorsmod "cosmossdk.io/errors"
@@ -271,6 +272,10 @@ func (k Keeper) GetLastBondedValidators(ctx sdk.Context) ([]stakingtypes.Validat
 // from the last bonded validators in the staking module.
 func (k Keeper) GetLastProviderConsensusActiveValidators(ctx sdk.Context) ([]stakingtypes.Validator, error) {
 	maxVals := k.GetMaxProviderConsensusValidators(ctx)
+	// the parameter is an int64: bound it instead of truncating it to its low 32 bits
+	if maxVals > math.MaxUint32 {
+		maxVals = math.MaxUint32
+	}
 	return ccv.GetLastBondedValidatorsUtil(ctx, k.stakingKeeper, uint32(maxVals))
 }
 
